@@ -592,6 +592,20 @@ func c15(c *ctx) {
 			}
 		}
 	}
+	// handshake requests whose key is 24 characters of the base64 alphabet that are NOT the encoding of 16
+	// bytes (no padding: 18 bytes; one '=': 17 bytes), padding in odd places, and neighbours in length
+	for ki, kv := range []string{"dGhlIHNhbXBsZSBub25jZQA=", "dGhlIHNhbXBsZSBub25jZQAA", "0123456789abcdef01234567", "////////////////////////", "++++++++++++++++++++++==",
+		"========================", "dGhlIHNhbXBsZSBub25jZQ=A", "dGhl=HNhbXBsZSBub25jZQ==", "dGhlIHNhbXBsZSBub25jZ===", "dGhlIHNhbXBsZSBub25jZQ==", "AAAAAAAAAAAAAAAAAAAAAAAA",
+		"dGhlIHNhbXBsZSBub25jZQAAA", "dGhlIHNhbXBsZSBub25jZQA", "dGhlIHNhbXBsZSBub25jZQ\x00=", "dGhlIHNhbXBsZSBub25j\r\n==", "-_-_-_-_-_-_-_-_-_-_-_=="} {
+		for hi, head := range []string{"GET /x HTTP/1.1\r\nHost: h\r\nUpgrade: websocket\r\nConnection: Upgrade\r\nSec-WebSocket-Version: 13\r\nSec-WebSocket-Key: %s\r\n\r\n",
+			"GET /x HTTP/1.1\r\nSec-WebSocket-Key: %s\r\nHost: h\r\nUpgrade: websocket\r\nConnection: Upgrade\r\nSec-WebSocket-Version: 13\r\nSec-WebSocket-Protocol: chat\r\n\r\n",
+			"GET /x HTTP/1.1\r\nHost: h\r\nSec-WebSocket-Key: %s\r\n\r\n"} {
+			in := []byte(fmt.Sprintf(head, kv))
+			for _, e := range entries["request"] {
+				call(fmt.Sprintf("keyform/%d/%d/%s", ki, hi, e.name), "request", e.name, e.f, in, "keyform", false, false, 0)
+			}
+		}
+	}
 	// fragmented text whose fragments end inside a multi-byte sequence, closed by an empty (or tiny)
 	// final continuation: the helpers read these through growing buffers
 	for _, first := range []int{0, 1, 200, 300, 511, 512, 600, 5000} {
